@@ -80,54 +80,7 @@ def run(ctx):
         ctx.note(f'C12-R2: analyze_order consults ordered_pk_ids/find_sort_key_id: {uses} (two column-level PRIMARY KEYs are rejected '
                  f'by the binder today, so the first is_primary() column is the only key)')
 
-    R4 = 'C12-R4'
-    ORDER_SOURCES = {   # operator -> why its output order may be claimed (confirmed by reading the executor; one line each)
-        'List': 'not an operator: the key list itself',
-        'Scan': 'primary-key order of a disk scan, gated by table_is_sorted_by_primary_key (see R1)',
-        'Order': 'OrderExecutor sorts by these keys',
-        'TopN': 'TopNExecutor emits its heap in key order',
-        'Proj': 'ProjectionExecutor maps each chunk of its child in place',
-        'Filter': 'FilterExecutor keeps a subsequence of each chunk',
-        'Window': 'WindowExecutor appends columns to each chunk in place',
-        'Limit': 'LimitExecutor emits a contiguous slice of its child\'s stream',
-        'MergeJoin': 'MergeJoinExecutor walks both inputs in key order and emits matches (and padded rows) in that order',
-        'SortAgg': 'SortAggExecutor emits one row per run of equal keys, in the child\'s order',
-    }
-    ctx.rule(R4, 'analyze_order claims an output order only for operators whose executor was confirmed to keep or create it '
-                 f'({", ".join(sorted(ORDER_SOURCES))}); every other operator must fall into the default (unordered) arm. The '
-                 'useless-order rule deletes an ORDER BY on the strength of this claim (a hash join, for one, emits its unmatched '
-                 'build rows after the probe side)')
-    ao_b = prog.body('planner::rules::order::analyze_order')
-    if ctx.anchor(R4, 'planner::rules::order::analyze_order', ao_b is not None):
-        ctx.functions_analysed.add(ao_b.name)
-        sw = [(i, bl['term']) for i, bl in enumerate(ao_b.blocks) if bl['term']['k'] == 'switch' and bl['term'].get('adt') == 'planner::Expr'
-              and (bl['term'].get('on') or {}).get('l') == 2]   # the match on `enode` itself (argument 2), not on a child's node
-        if ctx.anchor(R4, 'analyze_order: match on the plan node', sw):
-            claimed = set()
-            for i, t in sw:
-                names = t.get('variants', {})
-                for v, tgt in t['targets']:
-                    if tgt != t.get('otherwise'):
-                        claimed.add(names.get(str(v), str(v)))
-            ctx.floor(R4, len(claimed), 8, 'operators for which analyze_order claims an order')
-            # a merge join keeps the right input's order only when no unmatched left row is padded in between: Inner, RightOuter
-            mj = merge_join_types(ao_b)
-            ctx.ob(R4, 'analyze_order·MergeJoin·join-types', mj is not None and mj <= {'Inner', 'RightOuter'},
-                   'MergeJoin hands on the right side\'s order for join types ' + (str(sorted(mj)) if mj is not None else 'ALL (no test of the join type)')
-                   + '; only Inner and RightOuter emit their rows in right-key order', [ao_b.loc],
-                   what='analyze_order lets a LEFT / FULL merge join inherit the order of its right input: an ORDER BY on the right key above '
-                        'it is removed although the NULL-padded rows sit between the matched ones')
-            for v, foreign in sorted(pass_through_arms(ao_b).items()):
-                ctx.ob(R4, f'analyze_order·{v}·passes-keys-unchanged', not foreign,
-                       f'{v}: the arm must hand on its child\'s key list as it is (x(child).clone()); other calls in the arm: {foreign}',
-                       [ao_b.loc],
-                       what=f'analyze_order computes the order of `{v}` from its child\'s keys with extra logic ({", ".join(foreign)[:120]}): '
-                            'a key list that is filtered rather than cut at the first missing key claims an order the rows do not have')
-            for v in sorted(claimed):
-                ctx.ob(R4, f'analyze_order·{v}', v in ORDER_SOURCES,
-                       f'{v}: ' + (ORDER_SOURCES.get(v) or 'no confirmed reason why this operator\'s output is ordered'), [ao_b.loc],
-                       what=f'analyze_order claims that `{v}` passes an order through, which no executor reading supports: '
-                            f'useless-order then drops an ORDER BY above it')
+    order_claims_rule(ctx, prog, 'C12-R4')
 
     R3 = 'C12-R3'
     ctx.rule(R3, 'LIMIT/OFFSET: every batch taken from the child is counted: on every path from receiving a batch to asking for the '
@@ -258,9 +211,8 @@ def class_level_order(ctx, prog):
                         'drop the ORDER BY above the class, and a cost tie extracts the unordered hash aggregation')
 
 
-def heap_orientation(ctx, prog):
+def heap_orientation(ctx, prog, R7='C12-R7'):
     """C12-R7: the min-heap of MergeIterator asks one question"""
-    R7 = 'C12-R7'
     ctx.rule(R7, 'MergeIterator keeps the smallest pending row on top of a hand-written binary heap; sift-up, the choice of the smaller '
                  'child and the push-down test all ask the same question of compare_in_heap - "is the first greater than the second?" - '
                  'i.e. they split Ordering into {Greater} and {Less, Equal} (matches!(.., Greater), is_gt, is_le). A test that splits it '
@@ -400,3 +352,54 @@ def sorted_rowsets_rule(ctx, prog):
                [site(b, c.bb)],
                what='a primary-key table writes rows into a row-set without passing them through the sorting memtable: the row-set is no '
                     'longer in key order, and `SELECT .. ORDER BY <pk>` (whose sort the planner removes on the disk engine) returns them unsorted')
+
+
+def order_claims_rule(ctx, prog, R4):
+    """C12-R4 = C02-R7: analyze_order claims an order only for confirmed operators"""
+    ORDER_SOURCES = {   # operator -> why its output order may be claimed (confirmed by reading the executor; one line each)
+        'List': 'not an operator: the key list itself',
+        'Scan': 'primary-key order of a disk scan, gated by table_is_sorted_by_primary_key (see R1)',
+        'Order': 'OrderExecutor sorts by these keys',
+        'TopN': 'TopNExecutor emits its heap in key order',
+        'Proj': 'ProjectionExecutor maps each chunk of its child in place',
+        'Filter': 'FilterExecutor keeps a subsequence of each chunk',
+        'Window': 'WindowExecutor appends columns to each chunk in place',
+        'Limit': 'LimitExecutor emits a contiguous slice of its child\'s stream',
+        'MergeJoin': 'MergeJoinExecutor walks both inputs in key order and emits matches (and padded rows) in that order',
+        'SortAgg': 'SortAggExecutor emits one row per run of equal keys, in the child\'s order',
+    }
+    ctx.rule(R4, 'analyze_order claims an output order only for operators whose executor was confirmed to keep or create it '
+                 f'({", ".join(sorted(ORDER_SOURCES))}); every other operator must fall into the default (unordered) arm. The '
+                 'useless-order rule deletes an ORDER BY on the strength of this claim (a hash join, for one, emits its unmatched '
+                 'build rows after the probe side)')
+    ao_b = prog.body('planner::rules::order::analyze_order')
+    if ctx.anchor(R4, 'planner::rules::order::analyze_order', ao_b is not None):
+        ctx.functions_analysed.add(ao_b.name)
+        sw = [(i, bl['term']) for i, bl in enumerate(ao_b.blocks) if bl['term']['k'] == 'switch' and bl['term'].get('adt') == 'planner::Expr'
+              and (bl['term'].get('on') or {}).get('l') == 2]   # the match on `enode` itself (argument 2), not on a child's node
+        if ctx.anchor(R4, 'analyze_order: match on the plan node', sw):
+            claimed = set()
+            for i, t in sw:
+                names = t.get('variants', {})
+                for v, tgt in t['targets']:
+                    if tgt != t.get('otherwise'):
+                        claimed.add(names.get(str(v), str(v)))
+            ctx.floor(R4, len(claimed), 8, 'operators for which analyze_order claims an order')
+            # a merge join keeps the right input's order only when no unmatched left row is padded in between: Inner, RightOuter
+            mj = merge_join_types(ao_b)
+            ctx.ob(R4, 'analyze_order·MergeJoin·join-types', mj is not None and mj <= {'Inner', 'RightOuter'},
+                   'MergeJoin hands on the right side\'s order for join types ' + (str(sorted(mj)) if mj is not None else 'ALL (no test of the join type)')
+                   + '; only Inner and RightOuter emit their rows in right-key order', [ao_b.loc],
+                   what='analyze_order lets a LEFT / FULL merge join inherit the order of its right input: an ORDER BY on the right key above '
+                        'it is removed although the NULL-padded rows sit between the matched ones')
+            for v, foreign in sorted(pass_through_arms(ao_b).items()):
+                ctx.ob(R4, f'analyze_order·{v}·passes-keys-unchanged', not foreign,
+                       f'{v}: the arm must hand on its child\'s key list as it is (x(child).clone()); other calls in the arm: {foreign}',
+                       [ao_b.loc],
+                       what=f'analyze_order computes the order of `{v}` from its child\'s keys with extra logic ({", ".join(foreign)[:120]}): '
+                            'a key list that is filtered rather than cut at the first missing key claims an order the rows do not have')
+            for v in sorted(claimed):
+                ctx.ob(R4, f'analyze_order·{v}', v in ORDER_SOURCES,
+                       f'{v}: ' + (ORDER_SOURCES.get(v) or 'no confirmed reason why this operator\'s output is ordered'), [ao_b.loc],
+                       what=f'analyze_order claims that `{v}` passes an order through, which no executor reading supports: '
+                            f'useless-order then drops an ORDER BY above it')
